@@ -92,6 +92,11 @@ impl W {
     }
 
     pub fn d<T: Debug>(&mut self, name: &str, v: T) {
+        if self.iter_fault.is_some() {
+            // Debug implementations drive the same iterators without a bound: once an iterator is
+            // known not to terminate, rendering would hang instead of reporting it
+            return;
+        }
         if self.record {
             let _ = writeln!(self.t, "{}={:?}", name, v);
         } else {
@@ -706,15 +711,17 @@ pub fn lax_net_slice(w: &mut W, n: &str, s: &LaxNetSlice) {
 
 pub fn tcp_options_iter(w: &mut W, n: &str, it: TcpOptionsIterator, area_len: usize) {
     w.sl(&format!("{n}.rest0"), it.rest());
-    w.d(&format!("{n}.dbg"), &it);
     let mut it2 = it.clone();
+    let it3 = it.clone();
+    // the bounded drive comes first: Debug (below and in every containing type) has no bound
     w.iter(n, it, area_len + 1, |w, nm, item| match item {
         Ok(e) => w.d(nm, e),
         Err(e) => w.err(nm, &e),
     });
+    w.d(&format!("{n}.dbg"), &it3);
     // rest() after each step stays inside the input
     let mut k = 0;
-    while it2.next().is_some() && k < area_len + 2 {
+    while w.iter_fault.is_none() && it2.next().is_some() && k < area_len + 2 {
         w.sl(&format!("{n}.rest"), it2.rest());
         k += 1;
     }
@@ -745,6 +752,20 @@ pub fn udp(w: &mut W, n: &str, s: &UdpSlice) {
 }
 
 pub fn tcp_header(w: &mut W, n: &str, h: &TcpHeader) {
+    {
+        // bounded drive first (Debug of TcpHeader renders the options through the same iterator)
+        let len = h.options.len();
+        let mut k = 0usize;
+        for _ in h.options_iterator() {
+            k += 1;
+            if k > len + 1 {
+                if w.iter_fault.is_none() {
+                    w.iter_fault = Some(format!("{n}.options_iterator: more than {} items (unbounded or not making progress)", len + 1));
+                }
+                break;
+            }
+        }
+    }
     w.d(&format!("{n}.dbg"), h);
     w.d(&format!("{n}.data_offset"), h.data_offset());
     w.d(&format!("{n}.header_len"), h.header_len());
@@ -869,14 +890,15 @@ pub fn ndp_option(w: &mut W, n: &str, o: &icmpv6::NdpOptionSlice) {
 
 pub fn ndp_options_iter(w: &mut W, n: &str, it: icmpv6::NdpOptionsIterator, area_len: usize) {
     w.sl(&format!("{n}.rest0"), it.rest());
-    w.d(&format!("{n}.dbg"), &it);
     let mut it2 = it.clone();
+    let it3 = it.clone();
     w.iter(n, it, area_len / 8 + 2, |w, nm, item| match item {
         Ok(o) => ndp_option(w, nm, &o),
         Err(e) => w.err(nm, &e),
     });
+    w.d(&format!("{n}.dbg"), &it3);
     let mut k = 0;
-    while it2.next().is_some() && k < area_len + 2 {
+    while w.iter_fault.is_none() && it2.next().is_some() && k < area_len + 2 {
         w.sl(&format!("{n}.rest"), it2.rest());
         k += 1;
     }
@@ -1130,11 +1152,11 @@ fn owned_headers(w: &mut W, n: &str, link: &Option<LinkHeader>, exts: &[LinkExtH
         }
     }
     if let Some(x) = tr {
-        w.d(&format!("{n}.transport"), x);
-        w.d(&format!("{n}.transport.header_len"), x.header_len());
         if let TransportHeader::Tcp(t) = x {
             tcp_header(w, &format!("{n}.transport.tcp"), t);
         }
+        w.d(&format!("{n}.transport"), x);
+        w.d(&format!("{n}.transport.header_len"), x.header_len());
     }
 }
 
